@@ -117,6 +117,21 @@ func (C02Mon) After(w *core.World, st *core.Step) {
 	if st.Kind == "goit" {
 		observeStaging(w, st)
 	}
+	if st.Kind == "goit" && st.Cmd() == "config" && st.Exit == 0 {
+		// what was GIVEN as the identity (the files are read by other processes in between and may be rewritten)
+		if pa := ParseArgv(st.Argv); len(pa.Pos) == 2 && (pa.Pos[0] == "user.name" || pa.Pos[0] == "user.email") && pa.OnlyFlags("--global") {
+			given, _ := w.Shadow["c02.given"].(map[string]string)
+			if given == nil {
+				given = map[string]string{}
+				w.Shadow["c02.given"] = given
+			}
+			scope := "local:"
+			if _, g := pa.Flag("--global"); g {
+				scope = "global:"
+			}
+			given[scope+pa.Pos[0]] = pa.Pos[1]
+		}
+	}
 	if st.Kind != "goit" || st.Cmd() != "commit" || !st.Pre.HasGoit() {
 		return
 	}
@@ -271,6 +286,18 @@ func (C02Mon) After(w *core.World, st *core.Step) {
 	} else if cm.Author.Name != name || cm.Author.Email != email || cm.Committer.Name != name || cm.Committer.Email != email {
 		w.Fail("C02.identity", "identity-differs", trig, "commit %s author=%q <%s> committer=%q <%s>, configured %q <%s>", short(X), cm.Author.Name, cm.Author.Email, cm.Committer.Name, cm.Committer.Email, name, email)
 	}
+	if given, _ := w.Shadow["c02.given"].(map[string]string); given != nil && cm.HasAuthor {
+		for key, got := range map[string]string{"user.name": cm.Author.Name, "user.email": cm.Author.Email} {
+			want, ok := given["local:"+key]
+			if !ok {
+				want, ok = given["global:"+key]
+			}
+			// values of printable characters with inner single blanks are used unchanged (C20's domain)
+			if ok && want != got && strings.TrimSpace(want) == want && !strings.Contains(want, "  ") && !strings.ContainsAny(want, "\t\n\r") {
+				w.Fail("C02.identity", "identity-differs-from-given", trig, "commit %s records %s %q, the value given to `config %s` was %q", short(X), key, got, key, want)
+			}
+		}
+	}
 	c.Oracle("C02.message")
 	if cm.RawMsg != msg+"\n" {
 		w.Fail("C02.message", "message-differs", trig, "commit %s stores message %q, given %q", short(X), clipS(cm.RawMsg, 80), clipS(msg, 80))
@@ -308,6 +335,13 @@ func runC02(c *core.Ctx) {
 			w.Goit("config", "user.name", "Local Only Name")
 			w.Goit("config", "--global", "user.email", "global-only@example.org")
 			w.Goit("config", "user.nick", "n")
+		} else if w.Hist%8 == 3 || w.Hist%8 == 5 {
+			// identities from the whole pool: quoted literals, '>' and '%' in the name, double blanks ...
+			w.Goit("init")
+			name, email, icl := gen.Identity(w.Rng)
+			w.Goit("config", "user.name", name)
+			w.Goit("config", "user.email", email)
+			c.Class("C02.identity|" + icl)
 		} else {
 			k.Init()
 		}
